@@ -3,6 +3,7 @@ CONSTANTS
   Foreign = {"z"}
   Values = {"x", "y"}
   MaxOps = 6
+  Design = "code"
 SPECIFICATION Spec
 VIEW View
 CHECK_DEADLOCK FALSE
